@@ -16,14 +16,20 @@ def main():
         x = sorted(rnd.sample(range(0, 40), n))
         y = [rnd.choice([0., 0., 1., 2., -1., rnd.uniform(-3, 3)]) for _ in range(n)]
         cases.append(([float(v) for v in x], y))
+        # the same knot pattern at other scales, and nearly uniform grids: shape-preserving
+        # interpolation must not depend on the unit of x
+        sc = rnd.choice([1e-3, 1e-10, 1e6])
+        cases.append(([float(v) * sc for v in x], y))
+        cases.append(([k * (1.0 + 3e-6 * rnd.random()) for k in range(1, n + 1)], y))
     for x, y in cases:
         xt, yt = torch.tensor(x, dtype=torch.float64), torch.tensor(y, dtype=torch.float64)
         p = PCHIP1D(xt, yt)
         ref = PchipInterpolator(np.array(x), np.array(y), extrapolate=True)
-        xq = np.linspace(x[0] - 1.0, x[-1] + 1.0, 97)
+        span = x[-1] - x[0]
+        xq = np.linspace(x[0] - 0.1 * span, x[-1] + 0.1 * span, 97)
         got = p(torch.tensor(xq)).numpy()
         exp = ref(xq)
-        if not np.allclose(got, exp, rtol=1e-9, atol=1e-9):
+        if not np.allclose(got, exp, rtol=1e-7, atol=1e-9 * max(1.0, float(np.max(np.abs(y))))):
             k = int(np.argmax(np.abs(got - exp)))
             print(f"REPRODUCED: x={x} y={y}: PCHIP1D({xq[k]:.4f}) = {got[k]:.6g}, standard PCHIP (SciPy) = {exp[k]:.6g}")
             return 1
